@@ -167,6 +167,12 @@ pub fn explore(args: &[String]) -> i32 {
   tyme4rs::tyme::verif::set_hash_seed(mix(mix(seed, 0x696e6974), worker) | 1);
   install_hooks();
   let report_key: Option<String> = arg(args, "--report-key").map(|s| s.to_string());
+  let report_run: Option<u64> = arg(args, "--report-run").map(|s| s.parse::<u64>().unwrap_or(0));
+  let reset_pct = arg_u64(args, "--reset-pct", 75);
+  let sample_fresh = arg_u64(args, "--sample-fresh", 48) as usize;
+  let mut fresh_sample: Vec<(String, char, u64, u64)> = Vec::new();
+  let mut fresh_seen = 0u64;
+  let mut sample_rng = Rng::new(mix(mix(seed, 0x6672657368), worker));
   let lock_cal = calibrate_locks(watchdog);
   let lock_slot = |addr: usize| -> usize { lock_cal.iter().position(|a| *a == addr && addr != 0).unwrap_or(3) };
   let leap = Leap::build();
@@ -290,7 +296,7 @@ pub fn explore(args: &[String]) -> i32 {
     let run_seed = mix(mix(seed, worker.wrapping_add(1)), r);
     let mut rng = Rng::new(run_seed);
     let sw = draw_swarm(&mut rng, &leap, conc);
-    let reset = run_texts.is_empty() || rng.chance(3, 4);
+    let reset = run_texts.is_empty() || rng.below(100) < reset_pct;
     let script = gen_run(&mut rng, &sw, &pool, &leap, reset, &mut gs);
     if reset && !pending.is_empty() {
       cold_phase!();
@@ -360,6 +366,20 @@ pub fn explore(args: &[String]) -> i32 {
     for e in &evals {
       evaluations += 1;
       pending.push(Pending { key: e.key.clone(), class: e.class, digest: e.digest, run: run_index, tid: e.tid, op: e.op, from_handle: e.from_handle });
+      // reservoir sample of evaluations, to be compared with a really fresh process by the driver
+      fresh_seen += 1;
+      if fresh_sample.len() < sample_fresh {
+        fresh_sample.push((e.key.clone(), e.class, e.digest, r));
+      } else if sample_fresh > 0 {
+        let j = sample_rng.below(fresh_seen) as usize;
+        if j < sample_fresh {
+          fresh_sample[j] = (e.key.clone(), e.class, e.digest, r);
+        }
+      }
+      if report_run == Some(r) && report_key.as_deref() == Some(e.key.as_str()) && !violated_keys.contains(&e.key) {
+        violated_keys.insert(e.key.clone());
+        violations.push(Violation { obligation: "X", key: e.key.clone(), detail: format!("reported evaluation: run {} thread {} op {} class {} digest {:016x}", run_index, e.tid, e.op, e.class, e.digest), run: run_index, history_from: run_index.saturating_sub(199), history_text: None });
+      }
       eval_hash = fnv(eval_hash, e.key.as_bytes());
       eval_hash = fnv(eval_hash, &e.digest.to_le_bytes());
       if e.from_handle {
@@ -413,7 +433,7 @@ pub fn explore(args: &[String]) -> i32 {
       match table.get(&e.key) {
         None => {
           table.insert(e.key.clone(), (e.class, e.digest, run_index));
-          if report_key.as_deref() == Some(e.key.as_str()) {
+          if report_run.is_none() && report_key.as_deref() == Some(e.key.as_str()) {
             violations.push(Violation { obligation: "X", key: e.key.clone(), detail: format!("first evaluation of the reported key: run {} thread {} op {} class {} digest {:016x}", run_index, e.tid, e.op, e.class, e.digest), run: run_index, history_from: run_index.saturating_sub(199), history_text: None });
           }
         }
@@ -522,6 +542,14 @@ pub fn explore(args: &[String]) -> i32 {
     }
   }
   o.push_str("},");
+  o.push_str("\"fresh_sample\":[");
+  for (i, (k, c, d, rr)) in fresh_sample.iter().enumerate() {
+    if i > 0 {
+      o.push(',');
+    }
+    let _ = write!(o, "{{\"key\":\"{}\",\"ans\":\"{}{:016x}\",\"run\":{}}}", esc(k), c, d, rr);
+  }
+  o.push_str("],");
   o.push_str("\"violations\":[");
   for (i, v) in violations.iter().enumerate() {
     if i > 0 {
